@@ -523,7 +523,7 @@ const COMMON_PHYSICAL_UNITS: &[UnitTuple] = &[
 	("sqµm", "", "=µm^2", ""),
 	("sqmm", "", "=mm^2", ""),
 	("sqcm", "", "=cm^2", ""),
-	("sqdm", "", "=cm^2", ""),
+	("sqdm", "", "=dm^2", ""),
 	("sqm", "", "=m^2", ""),
 	("sqkm", "", "=km^2", ""),
 	// cbx:
@@ -532,7 +532,7 @@ const COMMON_PHYSICAL_UNITS: &[UnitTuple] = &[
 	("cbµm", "", "=µm^3", ""),
 	("cbmm", "", "=mm^3", ""),
 	("cbcm", "", "=cm^3", ""),
-	("cbdm", "", "=cm^3", ""),
+	("cbdm", "", "=dm^3", ""),
 	("cbm", "", "=m^3", ""),
 	("cbkm", "", "=km^3", ""),
 	// x2:
@@ -541,7 +541,7 @@ const COMMON_PHYSICAL_UNITS: &[UnitTuple] = &[
 	("µm2", "", "=µm^2", ""),
 	("mm2", "", "=mm^2", ""),
 	("cm2", "", "=cm^2", ""),
-	("dm2", "", "=cm^2", ""),
+	("dm2", "", "=dm^2", ""),
 	("m2", "", "=m^2", ""),
 	("km2", "", "=km^2", ""),
 	// x3:
@@ -550,7 +550,7 @@ const COMMON_PHYSICAL_UNITS: &[UnitTuple] = &[
 	("µm3", "", "=µm^3", ""),
 	("mm3", "", "=mm^3", ""),
 	("cm3", "", "=cm^3", ""),
-	("dm3", "", "=cm^3", ""),
+	("dm3", "", "=dm^3", ""),
 	("m3", "", "=m^3", ""),
 	("km3", "", "=km^3", ""),
 	("gongjin", "", "l@1 kilogram", ""),
